@@ -264,3 +264,41 @@ PROPS["C16"] = dict(
     engines=[pbt("c16_stats", libs=["rapidcheck", "snappy", "lz4"], quick=dict(cases=1500, size=60, procs=6), thorough=dict(cases=15000, size=100, procs=16))],
     min_evaluations=dict(quick=6000, thorough=150000),
 )
+
+
+_W_LIBS = ["rapidcheck", "snappy", "lz4"]
+PROPS["C01"] = dict(
+    title="Write-then-read round trip returns exactly the table that was written",
+    level="exploration",
+    design_ref="DESIGN.md section 8, C01",
+    level_text=("Generated write histories against an in-memory table model: flat schemas of 1..6 (occasionally 9..12) REQUIRED/OPTIONAL columns over the seven writable types, "
+                "0..4 row groups of 0..300 (occasionally 1100..3000) rows, five codecs, page sizes 64 B..1 MiB, explicit new_row_group calls incl. on an empty group, every "
+                "column's rows split into write_batch calls (one batch, singletons, random, many-tiny-then-large) with the columns' calls randomly interleaved, OPTIONAL columns "
+                "optionally written without definition levels, path- and FILE*-based writers. If every writer call returned OK the file must re-open in the drawn I/O mode and "
+                "read back (whole chunk and in generated batches) the same row counts, row-group partition, schema and per-column null positions and bit-identical values. "
+                "Exploration only."),
+    level_note="a non-OK writer status makes the case vacuous (class writer_refused, must stay rare); byte-array results are dereferenced after the call that returned them (ASan)",
+    technique="property-based testing (rapidcheck): generated write histories, in-memory table model, round-trip oracle under ASan",
+    rule=("case = (schema, table, codec, page size, row-group layout, per-column batch partition, interleaving seed, no-levels flags, writer kind, read mode, read batch). "
+          "Non-trivial: an OPTIONAL column with both null and non-null rows and (two batches in one page, or a chunk larger than the page size, or two row groups)."),
+    assumptions=["write_batch is never called with zero rows or a NULL value pointer", "all columns of a row group receive the same number of rows (documented precondition)"],
+    engines=[pbt("c01_roundtrip", libs=_W_LIBS, only="roundtrip", quick=dict(cases=500, size=60, procs=8), thorough=dict(cases=15000, size=100, procs=16))],
+    min_evaluations=dict(quick=3000, thorough=150000),
+)
+PROPS["C05"] = dict(
+    title="Every file the writer reports complete is structurally valid Parquet",
+    level="exploration",
+    design_ref="DESIGN.md section 8, C05",
+    level_text=("The files of C01's generator are handed to an independent strict reader written from the format specification (ref/parquet_reader.hpp: own Thrift codec, "
+                "own level/value decoders, decompression through libsnappy/zlib/libzstd/liblz4): magic, footer length, required Thrift fields, schema tree, chunks tiling "
+                "[4, footer) in order without gap or overlap, page headers chaining exactly to the chunk end, page/chunk/row-group/file value and row counts, codec tag vs "
+                "payload format, encodings listed, stored CRC = zlib crc32 of the stored page bytes, uncompressed sizes (page, chunk incl. headers, row group), and the "
+                "decoded table must equal the model. The same table is then written a second time and the two files must be byte-identical. Exploration only."),
+    level_note="a raw LZ4 block is accepted under codec tags 5 and 7 (tag 5 is historically ambiguous; tolerance stated on purpose)",
+    technique="property-based differential testing (rapidcheck): carquet writer vs independent specification reader/validator; double-write determinism",
+    rule="same generator and non-trivial rule as C01",
+    assumptions=["parquet.thrift: total_uncompressed_size and total_compressed_size include page headers; RowGroup.total_byte_size is the uncompressed column data size"],
+    engines=[pbt("c01_roundtrip", libs=_W_LIBS, only="structure", name="c05_structure", quick=dict(cases=500, size=60, procs=8), thorough=dict(cases=15000, size=100, procs=16))],
+    min_evaluations=dict(quick=3000, thorough=150000),
+)
+PROPS["C16"]["engines"].append(pbt("c01_roundtrip", libs=_W_LIBS, only="page_stats", name="c16_page_stats", quick=dict(cases=250, size=60, procs=4), thorough=dict(cases=5000, size=100, procs=8)))
